@@ -14,6 +14,7 @@ mod sniff;
 mod eyeballs;
 mod timeout;
 mod wire;
+mod streams;
 
 use std::io::{BufRead, Write};
 
@@ -34,6 +35,7 @@ fn gen(stream: &str, seed: u64, n: u64) -> Vec<String> {
                 "eb" => eyeballs::gen(&mut r, i),
                 "to" => timeout::gen(&mut r, i),
                 "wire" => wire::gen(&mut r, i),
+                "st" => streams::gen(&mut r, i),
                 _ => panic!("unknown stream {stream}"),
             };
             format!("{stream} {body}")
@@ -57,6 +59,7 @@ fn run_line(line: &str) -> String {
         "eb" => eyeballs::run(&toks),
         "to" => timeout::run(&toks),
         "wire" => wire::run(&toks),
+        "st" => streams::run(&toks),
         _ => "unknown-stream".to_string(),
     };
     format!("{input} | {obs}")
